@@ -80,6 +80,13 @@ def main():
                        "nontrivial": False,
                        "why": "harness error: " + traceback.format_exc()[-1500:]}
         faulthandler.cancel_dump_traceback_later()
+        if res.get("verdict") == "violated" and "can't unbox array from PyObject" in str(
+                res.get("why", "")):
+            # numba's dispatcher could not unbox an ndarray argument of a kernel it had loaded
+            # from its on-disk cache (seen once, with a cache directory that several check
+            # runs had been writing concurrently; gone with a fresh cache): infrastructure
+            res = {"verdict": "inconclusive", "sig": "jit-cache-dispatch", "nontrivial": False,
+                   "why": "numba cache / dispatcher error: " + str(res.get("why"))[:200]}
         if res.get("verdict") == "violated" and "nbcache-" in str(res.get("why", "")):
             # the JIT cache directory was disturbed from outside: infrastructure, not sigpy
             res = {"verdict": "inconclusive", "sig": "jit-cache-io", "nontrivial": False,
